@@ -501,6 +501,33 @@ func generateMore(suite string, seed uint64, i int, r *rng, id string, g gp) *Ca
 			cfg.NS = fs(10)
 		}
 		return lay(cfg, edges)
+	case "c14-deep": // depth-first search paths of more than 32 nodes, several times over: k long chains under one root, cycles inside
+		// the chains, cross edges from later chains into finished nodes of earlier ones (not back edges: they must stay as drawn)
+		k := r.rangeIn(2, 3)
+		var edges [][]string
+		lens := make([]int, k)
+		nm := func(c, i int) string { return "c" + strconv.Itoa(c) + "_" + strconv.Itoa(i) }
+		for c := 0; c < k; c++ {
+			lens[c] = r.rangeIn(34, 60)
+			edges = append(edges, []string{"root", nm(c, 0)})
+			for i := 0; i+1 < lens[c]; i++ {
+				edges = append(edges, []string{nm(c, i), nm(c, i+1)})
+			}
+			for x := r.rangeIn(1, 3); x > 0; x-- { // a back edge inside the chain
+				i := r.rangeIn(1, lens[c]-1)
+				j := r.intn(i)
+				edges = append(edges, []string{nm(c, i), nm(c, j)})
+			}
+		}
+		for x := r.rangeIn(2, 6); x > 0; x-- { // cross edges from a later chain into an earlier one
+			c2 := r.rangeIn(1, k-1)
+			c1 := r.intn(c2)
+			edges = append(edges, []string{nm(c2, r.intn(lens[c2])), nm(c1, r.intn(lens[c1]))})
+		}
+		cfg := genCfg(r, cp{p1: []int{1}, p2: []int{0, 1}, p4: []int{1}, p5: []int{1}, trace: true, mon: true}, usedNames(edges))
+		c := lay(cfg, edges)
+		c.Arg = map[string]any{"timeout_ms": 60000.0}
+		return c
 	case "c14": // depth-first breaker on cyclic multigraphs; both breakers on acyclic ones
 		g.kind = []int{0, 4, 1, 1}[r.intn(4)]
 		edges, names := genGraph(r, g)
